@@ -52,11 +52,17 @@ def run_modules(case, be):
         def mk(p):
             t = torch.from_numpy(p[0].copy())
             return MaskedTensor(t, torch.from_numpy(np.repeat(p[1][..., None], D, axis=-1).copy())) if case["masked"] else MaskedTensor(t)
-        guard("distance", lambda: DistanceRepresentation()(mk(pts[0]), mk(pts[1])).numpy())
-        guard("angle", lambda: AngleRepresentation()(mk(pts[0]), mk(pts[1])).numpy())
-        guard("inner_angle", lambda: InnerAngleRepresentation()(mk(pts[0]), mk(pts[1]), mk(pts[2])).numpy())
-        guard("point_line", lambda: PointLineDistanceRepresentation()(mk(pts[0]), mk(pts[1]), mk(pts[2])).numpy())
-        guard("points", lambda: PointsRepresentation()(mk(pts[0])).numpy())
+        # the SAME three point sets are handed to every module, as a caller holding them would; they must come back untouched
+        ins = [mk(pts[0]), mk(pts[1]), mk(pts[2])]
+        snap = [(i.tensor.clone(), i.mask.clone()) for i in ins]
+        guard("distance", lambda: DistanceRepresentation()(ins[0], ins[1]).numpy())
+        guard("angle", lambda: AngleRepresentation()(ins[0], ins[1]).numpy())
+        guard("inner_angle", lambda: InnerAngleRepresentation()(ins[0], ins[1], ins[2]).numpy())
+        guard("point_line", lambda: PointLineDistanceRepresentation()(ins[0], ins[1], ins[2]).numpy())
+        guard("points", lambda: PointsRepresentation()(ins[0]).numpy())
+        changed = [k for k, (i, (t0, m0)) in enumerate(zip(ins, snap)) if not (torch.equal(i.mask, m0) and torch.equal(torch.nan_to_num(i.tensor, nan=12345.0), torch.nan_to_num(t0, nan=12345.0)))]
+        if changed:
+            res["_inputs_modified"] = changed
     elif be == "tf":
         import tensorflow as tf
         from pose_format.tensorflow.representation.distance import DistanceRepresentation
@@ -71,7 +77,12 @@ def run_modules(case, be):
     else:
         from pose_format.numpy.representation.distance import DistanceRepresentation
         mk = lambda p: ma.array(p[0].copy(), mask=~np.repeat(p[1][..., None], D, axis=-1)) if case["masked"] else ma.array(p[0].copy())
-        guard("distance", lambda: DistanceRepresentation()(mk(pts[0]), mk(pts[1])))
+        ins = [mk(pts[0]), mk(pts[1])]
+        snap = [(np.array(ma.getdata(i), copy=True), np.array(ma.getmaskarray(i), copy=True)) for i in ins]
+        guard("distance", lambda: DistanceRepresentation()(ins[0], ins[1]))
+        changed = [k for k, (i, (t0, m0)) in enumerate(zip(ins, snap)) if not (np.array_equal(ma.getmaskarray(i), m0) and np.array_equal(np.nan_to_num(ma.getdata(i), nan=12345.0), np.nan_to_num(t0, nan=12345.0)))]
+        if changed:
+            res["_inputs_modified"] = changed
     return res
 
 
